@@ -39,7 +39,8 @@ def is_unqualified_table_expression(expression: exp.Expression) -> tuple[bool, b
             no_schema = False
         elif parent_kind.upper() == "SCHEMA":
             # "CREATE/DROP SCHEMA"
-            no_database = not node.args.get("catalog")
+            # NB: with IF EXISTS sqlglot parses "DROP SCHEMA IF EXISTS db.schema" as a table named schema in db
+            no_database = not (node.args.get("catalog") or (node.args.get("this") and node.args.get("db")))
             no_schema = False
         elif parent_kind.upper() in {"TABLE", "VIEW"}:
             # "CREATE/DROP TABLE/VIEW"
